@@ -109,7 +109,7 @@ class C07(Harness):
         "time.time := real clock (values ignored)",
     )
     assumptions = ("integer time index with arbitrary spacing g >= 1 (RangeIndex or Int64Index)", "start_with_window=True (enforced by evaluate)", "window_length, step_length >= 1, fh strictly increasing out-of-sample")
-    outside = ("series longer than the stated n", "fit_params passing")
+    outside = ("series longer than the stated n", "fit_params passing", "datetime / period time indices")
 
     def bounds(self, tier):
         q = tier == "quick"
